@@ -392,6 +392,10 @@ class TypeChecker(walkers.dag.DagWalker):
         for x in args:
             if x is None:
                 return None
+            elif t.is_user_type() != x.is_user_type():
+                # a user-typed term is comparable only with a user-typed term,
+                # whichever side of the equality it is on
+                return None
             elif (
                 t.is_user_type()
                 and t != x
@@ -405,9 +409,10 @@ class TypeChecker(walkers.dag.DagWalker):
                     x_ancestors = set(x.ancestors)
                     if all(t_ancestor not in x_ancestors for t_ancestor in t.ancestors):
                         return None
-            elif (t.is_int_type() or t.is_real_type()) and not (
-                x.is_int_type() or x.is_real_type()
+            elif not t.is_user_type() and not (
+                x.is_int_type() or x.is_real_type() or x.is_time_type()
             ):
+                # t is a numeric or a time type (as for LE/LT, the two mix)
                 return None
         return BOOL
 
